@@ -471,7 +471,7 @@ func c07Run(be *c07Backend, c c07Case, info *c07Info) error {
 		v := src
 		var err error
 		switch op.K {
-		case "fill", "drain":
+		case "fill", "fillpart", "drain":
 			if len(c.Groups) == 0 {
 				continue
 			}
@@ -480,7 +480,15 @@ func c07Run(be *c07Backend, c c07Case, info *c07Info) error {
 			if m == 0 {
 				continue
 			}
-			if op.K == "fill" {
+			if op.K == "fillpart" {
+				// only the first few keys of the group, one at a time (so that
+				// slices inside nodes are grown step by step and may have spare
+				// capacity when a later fork adds to them)
+				n := 1 + op.B%m
+				for j := 0; j < n && err == nil; j++ {
+					v, err = s.prim(v, false, g[(op.A+j)%m], what)
+				}
+			} else if op.K == "fill" {
 				stride := 1 + op.B%m
 				for c07Gcd(stride, m) != 1 {
 					stride++
@@ -503,6 +511,34 @@ func c07Run(be *c07Backend, c c07Case, info *c07Info) error {
 					}
 					v, err = s.prim(v, true, id, what)
 					remain--
+				}
+			}
+		case "fork", "forkdel":
+			// two different additions (or removals) applied to the SAME
+			// version: neither result may disturb the other or the source
+			// (nodes must never share mutable backing storage)
+			del := op.K == "forkdel"
+			var ids []int
+			if len(c.Groups) > 0 {
+				for _, id := range c.Groups[op.G%len(c.Groups)] {
+					if (src.model[id+1] != c07Absent) == del {
+						ids = append(ids, id)
+					}
+				}
+			}
+			if len(ids) < 2 {
+				ids = c07Present(src, del)
+			}
+			if len(ids) >= 2 {
+				i1 := op.A % len(ids)
+				i2 := (i1 + 1 + op.B%(len(ids)-1)) % len(ids)
+				var a *c07Ver
+				a, err = s.prim(src, del, ids[i1], what)
+				if err == nil {
+					v, err = s.prim(src, del, ids[i2], what)
+				}
+				if err == nil && a != src && len(s.snaps) < 8 {
+					s.snaps = append(s.snaps, a)
 				}
 			}
 		case "assoc":
@@ -607,7 +643,7 @@ func c07Gen(t *rapid.T) c07Case {
 			if len(c.Hashes) > 0 && rapid.Bool().Draw(t, "under") {
 				h = c.Hashes[rapid.IntRange(0, len(c.Hashes)-1).Draw(t, "like")]
 			}
-			m := rapid.IntRange(2, 5).Draw(t, "ncoll")
+			m := rapid.IntRange(2, 9).Draw(t, "ncoll")
 			for j := 0; j < m; j++ {
 				g = append(g, add(h))
 			}
@@ -636,7 +672,7 @@ func c07Gen(t *rapid.T) c07Case {
 		c.Groups = append(c.Groups, g)
 	}
 	nops := rapid.IntRange(2, 14).Draw(t, "nops")
-	opk := []string{"fill", "fill", "fill", "drain", "drain", "drain", "drain", "assoc", "assoc", "replace", "dissocpresent", "dissocabsent", "dissoc"}
+	opk := []string{"fill", "fill", "fill", "drain", "drain", "drain", "drain", "assoc", "assoc", "replace", "dissocpresent", "dissocabsent", "dissoc", "fork", "fork", "forkdel", "fillpart", "fillpart"}
 	for i := 0; i < nops; i++ {
 		op := c07Op{
 			K:   rapid.SampledFrom(opk).Draw(t, "op"),
